@@ -73,7 +73,7 @@ func c27(p *core.Program, r *core.Report) {
 	r.Rule("R1", "broadcast message registry: messageType* constants, getMessage cases and getMessageType cases are mutually inverse bijections; Server.receiveMessage handles exactly the registered types; Serializer.Unmarshal and encodeToProto cover every registered type and agree with each other; the static type of every message passed to SendSync/SendAsync/SendTo/sendTo/unprotectedSendSync/MarshalInternalMessage is registered")
 	r.Rule("R2", "query result kinds: queryResultType* constants, encodeQueryResponse's type switch and decodeQueryResult's switch are in bijection, and each kind decodes to the Go type it was encoded from")
 	r.Rule("R3", "field coverage symmetry: for every pilosa struct with an encodeX/decodeX pair in encoding/proto, every exported field is read by the encoder and filled by the decoder from the wire message (frozen exceptions: one field + reason)")
-	r.Rule("R4", "nil-safe decoding: a decode function that dereferences its wire-message parameter is never handed a singular nested message field (nil when absent from the bytes) unless the callee starts with a nil guard or the call is under a non-nil test; no direct dereference chain through such a field")
+	r.Rule("R4", "nil-safe decoding: a decode function that dereferences its wire-message parameter is never handed a singular nested message field (nil when absent from the bytes) unless the callee tests that parameter for nil before any other use of it, or the call is under a non-nil test; no direct dereference chain through such a field")
 	r.Rule("R5", "decoders reject instead of panicking: no decode* function in encoding/proto calls panic, and none indexes a repeated wire field with a constant without first testing its length")
 	r.Rule("R6", "codecs are projections: in encoding/proto a decoder fills field F of a pilosa struct only from the wire field of the same name (and an encoder fills wire field G only from the pilosa field of the same name), directly, through a conversion or through a nested decode/encode call; conditions guarding such an assignment may mention only that same field. Renames are a frozen table. A value computed from other fields, or two fields crossed, does not survive a round trip")
 	r.Rule("R7", "decoders fill on every path: in each decode* function of encoding/proto that fills two or more fields of a pilosa struct, every path that returns without error (return nil, a tail call of another decoder, or falling off the end) has filled every field that some path fills; a test of wire field F alone counts as deciding F on both outcomes, a nil guard on the parameter exempts the path, loops are taken at least once")
@@ -627,7 +627,7 @@ func c27R4(p *core.Program, r *core.Report, pp *packages.Package) {
 			decls[o] = fd
 		}
 	}
-	// guarded(D): first statement is `if p == nil { return ... }` for wire param p; derefs(D): D selects a field of p
+	// guarded(D): the first statement that mentions wire param p is `if p == nil { return ... }`; derefs(D): D selects a field of p
 	type dinfo struct {
 		param   types.Object
 		idx     int
@@ -642,8 +642,23 @@ func c27R4(p *core.Program, r *core.Report, pp *packages.Package) {
 				continue
 			}
 			di := &dinfo{param: sig.Params().At(i), idx: i}
-			if len(fd.Body.List) > 0 {
-				if ifs, ok := fd.Body.List[0].(*ast.IfStmt); ok {
+			// the first statement that mentions the parameter at all
+			var first ast.Stmt
+			for _, st := range fd.Body.List {
+				uses := false
+				ast.Inspect(st, func(n ast.Node) bool {
+					if id, ok := n.(*ast.Ident); ok && info.Uses[id] == di.param {
+						uses = true
+					}
+					return true
+				})
+				if uses {
+					first = st
+					break
+				}
+			}
+			if first != nil {
+				if ifs, ok := first.(*ast.IfStmt); ok {
 					if be, ok := ast.Unparen(ifs.Cond).(*ast.BinaryExpr); ok && be.Op == token.EQL {
 						if id, ok := ast.Unparen(be.X).(*ast.Ident); ok && info.ObjectOf(id) == di.param {
 							if nl, ok := ast.Unparen(be.Y).(*ast.Ident); ok && nl.Name == "nil" {
@@ -725,7 +740,7 @@ func c27R4(p *core.Program, r *core.Report, pp *packages.Package) {
 				construct := core.FuncName(fd) + ": " + fn.Name() + "(" + types.ExprString(arg) + ")"
 				switch {
 				case di.guarded:
-					r.HoldAt("R4", construct, p.Pos(x.Pos()), "callee starts with a nil guard")
+					r.HoldAt("R4", construct, p.Pos(x.Pos()), "callee tests the parameter for nil before any other use")
 				case !di.derefs:
 					r.HoldAt("R4", construct, p.Pos(x.Pos()), "callee does not dereference the message")
 				case nonNilGuarded(x, arg):
